@@ -22,11 +22,13 @@ BUILT = {
             "Streams respecting only the original delta-min prefix are counted in every window against extrapolate / extrapolate_steps / extrapolate_with_bound results and ExtrapolatingCurve; prefix values must be unchanged and values may only tighten. 2-5 cooperative clients holding clones, jittered clones and RBFs that share one cache interleave number_arrivals / service_needed / lazy steps_iter operations (iterators stay open across other clients' mutations) under a seeded scheduler; every answer is compared with a fresh eagerly extrapolated Curve and an independent super-additive-closure model; any panic (RefCell) is a violation with the operation history as replay."),
     "C14": ("3.10", "deterministic simulation: recorded job-cost histories summed over every run of consecutive jobs against the inferred / extrapolated cost curves; cooperative query clients on one shared wcet::ExtrapolatingCurve against a fresh object and a min-plus model",
             "An execution-time source (frame patterns, variation, spikes, zero-cost jobs) records job-cost histories; wcet::Curve::from_trace(max_n) must dominate the cost of every run of n consecutive jobs anywhere in the history for every n up to its length, extrapolate(m) may not raise any value and must keep dominating. 2-5 handles sharing one wcet::ExtrapolatingCurve interleave cost_of_jobs / least_wcet / lazy job_cost_iter operations under a seeded scheduler and every answer is compared with a fresh object and an independent min-plus model. The pure invariants of Scalar / Multiframe / Curve / ExtrapolatingCurve ride along."),
+    "C04": ("3.4", "deterministic simulation: ROS 2 executor stub under a reservation-server stub with online adversarial budget placement, every instance monitored against the real ECRTS'19 bounds",
+            "A single-threaded ROS 2 executor stub (timers first, ready set refreshed only when empty, non-preemptive callbacks, chains activated on completion) runs under a reservation stub that places its budget online (early, late, early-then-late aligned with a burst, random, withheld while busy, over-provisioned, random grid phase). Arrivals anywhere the library's curves allow, execution times in [1,WCET]. Every instance of every timer / polled callback / chain (source arrival to completion of the last callback) / event source is monitored against the bound the real analysis returned. About 38% of bounds are attained exactly on the unchanged tree."),
+    "C05": ("3.5", "deterministic simulation: same executor + reservation stubs; the rr / bw singleton-subchain analyses iterated to a self-consistent vector, every instance monitored against it",
+            "The rr resp. bw subchain analysis is iterated upwards from the WCETs until it reproduces the assumed response-time vector exactly (otherwise no claim); the same executor and reservation stubs then run timers, polled callbacks with known and with unknown priority under adversarial arrivals, execution times and budget placement, and every instance is monitored against its entry of the vector. The RTSS'21 bounds are far from tight (about 16% attained), so only changes that fall below the true worst case of a sampled workload are visible."),
 }
 
 NOT_YET = {
-    "C04": "claimed in DESIGN.md section 3.4; check not built yet (in progress)",
-    "C05": "claimed in DESIGN.md section 3.5; check not built yet (in progress)",
 }
 
 NA = {
